@@ -12,11 +12,18 @@
    Approximated: ReadInput.__init__'s SLY parse (ReadParser + lexer).  [read_name] recognises the class
        [comment lines] read <padding> file <padding | = | padding = padding> NAME <padding>
      where padding is blanks, a " &" before a line break, a line break, '$' comments and C comment lines, and NAME
-     is a non-empty run of  A-Z a-z 0-9 _ . / -  ; everything else that starts with the word "read" is answered
-     ParsingError.  (The real lexer also rejects some NAMEs inside this class, e.g. ones containing a shortcut-like
-     piece such as 2r or 3i, and accepts further parameters; the harness generates inside the class.)
+     is a non-empty run of  A-Z a-z 0-9 _ . / -  in which no letter and no '-' directly follows a digit and no
+     'e', 'E' or '-' directly follows a '.' (the lexer would cut such a name into number-like pieces: 2r, 3i, 1-,
+     1.e are answered ParsingError or a bare ValueError); everything else that starts with the word "read" is
+     answered ParsingError here (an approximation: the real parser accepts some names outside the class, e.g. 1a.i,
+     and leaks LexError for a double quote; the harness generates names inside the class and samples the boundary).
    The file system is an association list from the path strings handed to open() to file bytes; a relative path
-   is looked up under the working directory.  No proofs in this file. *)
+   is looked up under the working directory.  The drain loop itself only sees [ft : path -> option lines]
+   (open + iterate), so that it can be run on a byte file system ([fs_text fs cwd]) or on a tree of files given
+   by their cards ([tree_ft], second half of this file: the specification side).
+   montepy/mcnp_problem.py: parse_input appends the yielded inputs to the cells / surfaces / data_inputs
+   collections by block type and ignores the None yielded for a read card; write_to_file writes those three
+   collections in that order: [written_blocks].  No proofs in this file. *)
 From Coq Require Import List String Ascii Arith Bool Lia.
 From MPV Require Import Model.Wire Model.Lines.
 Import ListNotations.
@@ -55,7 +62,23 @@ Fixpoint all_chars (p : ascii -> bool) (s : string) : bool :=
   | EmptyString => true
   | String a r => andb (p a) (all_chars p r)
   end.
-Definition name_ok (s : string) : bool := andb (negb (is_empty s)) (all_chars name_char s).
+Definition is_digit (a : ascii) : bool := let n := nat_of_ascii a in andb (Nat.leb 48 n) (Nat.leb n 57).
+Definition is_letter (a : ascii) : bool :=
+  let n := nat_of_ascii a in orb (andb (Nat.leb 65 n) (Nat.leb n 90)) (andb (Nat.leb 97 n) (Nat.leb n 122)).
+Definition is_e (a : ascii) : bool := orb (Ascii.eqb a "e"%char) (Ascii.eqb a "E"%char).
+
+(* no letter and no '-' directly after a digit, no e / E / '-' directly after a '.' *)
+Fixpoint name_seq (prev : ascii) (s : string) : bool :=
+  match s with
+  | EmptyString => true
+  | String a r =>
+      andb (negb (andb (is_digit prev) (orb (is_letter a) (Ascii.eqb a "-"%char))))
+     (andb (negb (andb (Ascii.eqb prev "."%char) (orb (is_e a) (Ascii.eqb a "-"%char))))
+           (name_seq a r))
+  end.
+
+Definition name_ok (s : string) : bool :=
+  andb (negb (is_empty s)) (andb (all_chars name_char s) (name_seq " "%char s)).
 
 (* '&' is padding when a blank (or nothing) precedes it; '=' becomes a word of its own *)
 Fixpoint pad_text (prev_blank : bool) (s : string) : option string :=
@@ -91,8 +114,12 @@ Definition read_name (raw : list string) : rc :=
       end
   end.
 
-Definition classify (i : input) : rc :=
-  if is_read_input (i_lines i) then read_name (i_lines i) else RcNot.
+Definition classify_lines (raw : list string) : rc :=
+  if is_read_input raw then read_name raw else RcNot.
+Definition classify (i : input) : rc := classify_lines (i_lines i).
+
+Definition is_name (r : rc) : bool := match r with RcName _ => true | _ => false end.
+Definition is_rcerr (r : rc) : bool := match r with RcErr => true | _ => false end.
 
 (* ------------------------------------------------------------------ posixpath *)
 Fixpoint rfind_slash (s : string) (i : nat) (best : option nat) : option nat :=
@@ -173,8 +200,11 @@ Definition scan_file (w bt : nat) (path : string) (ls : list string)
   (map (yield_of path) pre, queue_of path pre,
    if perr then Some E_Parsing else match e with Some _ => Some E_Unsupported | None => None end).
 
+(* open(path) + iteration over the cleaned lines *)
+Definition opener := string -> option (list string).
+
 (* the drain loop; one unit of fuel per file opened *)
-Fixpoint drain (fuel : nat) (fs : fsys) (cwd dir : string) (w : nat) (q : list qitem)
+Fixpoint drain (fuel : nat) (ft : opener) (dir : string) (w : nat) (q : list qitem)
   : list yielded * option ra_err :=
   match q with
   | [] => ([], None)
@@ -183,13 +213,13 @@ Fixpoint drain (fuel : nat) (fs : fsys) (cwd dir : string) (w : nat) (q : list q
       | O => ([], Some E_OutOfFuel)
       | S f =>
           let p := path_join dir name in
-          match fs_text fs cwd p with
+          match ft p with
           | None => ([], Some E_FileNotFound)
           | Some ls =>
               match scan_file w bt p ls with
               | (ys, qs, Some e) => (ys, Some e)
               | (ys, qs, None) =>
-                  let (ys', e') := drain f fs cwd dir w (List.app q' qs) in
+                  let (ys', e') := drain f ft dir w (List.app q' qs) in
                   (List.app ys ys', e')
               end
           end
@@ -203,60 +233,252 @@ Record ra_result := mkRA {
   ra_error : option ra_err
 }.
 
-Definition read_all (w : nat) (fs : fsys) (cwd top : string) (fuel : nat) : ra_result :=
-  match fs_text fs cwd top with
+(* read_input_syntax: the queue starts empty on every call *)
+Definition read_all_ft (w : nat) (ft : opener) (top : string) (fuel : nat) : ra_result :=
+  match ft top with
   | None => mkRA None None [] (Some E_FileNotFound)
   | Some ls =>
       let fm := read_front_matters ls in
       match scan_file w 0 top (f_rest fm) with
       | (ys, qs, Some e) => mkRA (f_message fm) (f_title fm) ys (Some e)
       | (ys, qs, None) =>
-          let (ys', e') := drain fuel fs cwd (dirname top) w qs in
+          let (ys', e') := drain fuel ft (dirname top) w qs in
           mkRA (f_message fm) (f_title fm) (List.app ys ys') e'
       end
   end.
 
+Definition read_all (w : nat) (fs : fsys) (cwd top : string) (fuel : nat) : ra_result :=
+  read_all_ft w (fs_text fs cwd) top fuel.
+
 Definition inputs_of (ys : list yielded) : list (string * input) :=
   flat_map (fun y => match y with YInput p i => [(p, i)] | YNone => [] end) ys.
 
-(* reading one file without following its read cards (they are still dropped from the stream) *)
-Definition read_single (w : nat) (ls : list string) : list yielded * option ra_err :=
-  match scan_file w 0 "" (f_rest (read_front_matters ls)) with (ys, _, e) => (ys, e) end.
+(* reading one file that holds no read card any more *)
+Definition read_single (w : nat) (ls : list string) : ra_result :=
+  let fm := read_front_matters ls in
+  match scan_file w 0 "" (f_rest fm) with
+  | (ys, _, e) => mkRA (f_message fm) (f_title fm) ys e
+  end.
 
-(* ------------------------------------------------------------------ specification: breadth-first order,
+(* ------------------------------------------------------------------ mcnp_problem.py: what is kept of the stream
+   parse_input: an Input goes to the collection of its block type, None (a read card) is skipped;
+   write_to_file: cells, then surfaces, then data inputs, each in the order of arrival. *)
+Definition tcards (A : Type) := list (nat * A).
+
+Definition block_of {A : Type} (b : nat) (cs : list (nat * A)) : list (nat * A) :=
+  filter (fun c => Nat.eqb (fst c) b) cs.
+
+Definition by_blocks {A : Type} (cs : list (nat * A)) : list (nat * A) :=
+  List.app (block_of 0 cs) (List.app (block_of 1 cs) (block_of 2 cs)).
+
+Definition ycards (ys : list yielded) : list (nat * list string) :=
+  map (fun pi => (i_bt (snd pi), i_lines (snd pi))) (inputs_of ys).
+
+Definition written_blocks (r : ra_result) : list (list (list string)) :=
+  map (fun b => map snd (block_of b (ycards (ra_yields r)))) [0; 1; 2].
+
+(* ------------------------------------------------------------------ specification, part 1: breadth-first order,
    stated without a queue.  An item is a read card that was met: (block type, file name, parent). *)
 Definition item_path (dir : string) (it : qitem) : string := path_join dir (snd (fst it)).
 
-Definition item_scan (w : nat) (fs : fsys) (cwd dir : string) (it : qitem)
+Definition item_scan (w : nat) (ft : opener) (dir : string) (it : qitem)
   : option (list yielded * list qitem * option ra_err) :=
-  option_map (scan_file w (fst (fst it)) (item_path dir it)) (fs_text fs cwd (item_path dir it)).
+  option_map (scan_file w (fst (fst it)) (item_path dir it)) (ft (item_path dir it)).
 
 (* the file exists and is read to its end without an error *)
-Definition item_ok (w : nat) (fs : fsys) (cwd dir : string) (it : qitem) : Prop :=
-  exists ys qs, item_scan w fs cwd dir it = Some (ys, qs, None).
+Definition item_ok (w : nat) (ft : opener) (dir : string) (it : qitem) : Prop :=
+  exists ys qs, item_scan w ft dir it = Some (ys, qs, None).
 
-Definition item_yields (w : nat) (fs : fsys) (cwd dir : string) (it : qitem) : list yielded :=
-  match item_scan w fs cwd dir it with Some (ys, _, _) => ys | None => [] end.
+Definition item_missing (ft : opener) (dir : string) (it : qitem) : Prop := ft (item_path dir it) = None.
 
-Definition item_children (w : nat) (fs : fsys) (cwd dir : string) (it : qitem) : list qitem :=
-  match item_scan w fs cwd dir it with Some (_, qs, _) => qs | None => [] end.
+Definition item_yields (w : nat) (ft : opener) (dir : string) (it : qitem) : list yielded :=
+  match item_scan w ft dir it with Some (ys, _, _) => ys | None => [] end.
 
-Definition next_gen (w : nat) (fs : fsys) (cwd dir : string) (g : list qitem) : list qitem :=
-  flat_map (item_children w fs cwd dir) g.
+Definition item_children (w : nat) (ft : opener) (dir : string) (it : qitem) : list qitem :=
+  match item_scan w ft dir it with Some (_, qs, _) => qs | None => [] end.
 
-(* the n-th generation below g, and the first n generations listed one after the other *)
-Fixpoint gen_at (n : nat) (w : nat) (fs : fsys) (cwd dir : string) (g : list qitem) : list qitem :=
-  match n with O => g | S k => gen_at k w fs cwd dir (next_gen w fs cwd dir g) end.
+(* every input of the item's file, the read cards included *)
+Definition item_inputs (w : nat) (ft : opener) (dir : string) (it : qitem) : list input :=
+  match ft (item_path dir it) with
+  | Some ls => fst (read_data_from w (fst (fst it)) ls)
+  | None => []
+  end.
 
-Fixpoint bfs (n : nat) (w : nat) (fs : fsys) (cwd dir : string) (g : list qitem) : list qitem :=
-  match n with O => [] | S k => List.app g (bfs k w fs cwd dir (next_gen w fs cwd dir g)) end.
+(* the n-th generation below g, and the first n generations listed one after the other, for any
+   "children of a read card" function C *)
+Fixpoint gen_atG (C : qitem -> list qitem) (n : nat) (g : list qitem) : list qitem :=
+  match n with O => g | S k => gen_atG C k (flat_map C g) end.
 
-Definition blank_free (ls : list string) : Prop :=
-  Forall (fun l => all_space (expandtabs TABSIZE l) = false) ls.
+Fixpoint bfsG (C : qitem -> list qitem) (n : nat) (g : list qitem) : list qitem :=
+  match n with O => [] | S k => List.app g (bfsG C k (flat_map C g)) end.
+
+Definition gen_at (n w : nat) (ft : opener) (dir : string) (g : list qitem) : list qitem :=
+  gen_atG (item_children w ft dir) n g.
+Definition bfs (n w : nat) (ft : opener) (dir : string) (g : list qitem) : list qitem :=
+  bfsG (item_children w ft dir) n g.
+
+(* a file that holds one block: nothing but blank lines after its first blank line *)
+Definition blank_line (l : string) : bool := all_space (expandtabs TABSIZE l).
+
+Fixpoint one_block (ls : list string) : bool :=
+  match ls with
+  | [] => true
+  | l :: r => if blank_line l then forallb blank_line r else one_block r
+  end.
+
+Definition item_one_block (ft : opener) (dir : string) (it : qitem) : Prop :=
+  match ft (item_path dir it) with Some ls => one_block ls = true | None => True end.
+
+(* ------------------------------------------------------------------ specification, part 2: a problem's inputs
+   distributed over a tree of files.  A card is the list of its physical lines (line ends included); a file is
+   a first block of cards and further blocks, each behind its blank separator line. *)
+Definition card := list string.
+
+Definition cook (w : nat) (l : string) : string := rstrip (takeS w (expandtabs TABSIZE l)).
+Definition cooked (w : nat) (c : card) : list string := map (cook w) c.
+
+Definition amp3 : string := String sp (String "&"%char (String nl "")).
+Definition amp_end (w : nat) (l : string) : bool := ends_with amp3 (takeS w (expandtabs TABSIZE l)).
+
+Definition comment_line (l : string) : bool :=
+  let x := expandtabs TABSIZE l in andb (negb (all_space x)) (is_comment x).
+
+(* a line that starts a card wherever it stands: data in columns 1-5, not a comment, no '#' there *)
+Definition start_line (l : string) : bool :=
+  let x := expandtabs TABSIZE l in
+  andb (negb (all_space x))
+ (andb (negb (is_comment x))
+ (andb (negb (all_space (takeS BLANK_SPACE_CONTINUE x)))
+       (negb (contains "#"%char (takeS BLANK_SPACE_CONTINUE x))))).
+
+(* the lines after the first one: comment lines, lines indented by five blanks, lines behind a " &";
+   the card does not end on a " &" *)
+Fixpoint cont_lines (w : nat) (cont : bool) (ls : list string) : bool :=
+  match ls with
+  | [] => negb cont
+  | l :: r =>
+      let x := expandtabs TABSIZE l in
+      andb (negb (all_space x))
+     (andb (orb (all_space (takeS BLANK_SPACE_CONTINUE x)) (orb cont (is_comment x)))
+     (andb (negb (andb (contains "#"%char (takeS BLANK_SPACE_CONTINUE x)) (negb (is_comment x))))
+           (cont_lines w (amp_end w l) r)))
+  end.
+
+Definition card_ok (w : nat) (c : card) : bool :=
+  match c with
+  | [] => false
+  | l :: r => andb (start_line l) (cont_lines w (amp_end w l) r)
+  end.
+
+(* the first card of a block may carry comment lines in front *)
+Fixpoint lcard_ok (w : nat) (c : card) : bool :=
+  match c with
+  | [] => false
+  | l :: r => if comment_line l then lcard_ok w r else card_ok w c
+  end.
+
+Definition block_ok (w : nat) (b : list card) : bool :=
+  match b with
+  | [] => true
+  | c :: r => andb (lcard_ok w c) (forallb (card_ok w) r)
+  end.
+
+Record sfile := mkS { s_first : list card; s_more : list (string * list card) }.
+
+Definition render (sf : sfile) : list string :=
+  List.app (List.concat (s_first sf)) (flat_map (fun sb => fst sb :: List.concat (snd sb)) (s_more sf)).
+
+(* block type after one more blank line (flush_block) *)
+Definition next_bt (bc bt : nat) : nat := if Nat.ltb (S bc) 3 then S bc else bt.
+
+Fixpoint more_tcards (bc bt : nat) (more : list (string * list card)) : list (nat * card) :=
+  match more with
+  | [] => []
+  | sb :: r => List.app (map (pair (next_bt bc bt)) (snd sb)) (more_tcards (S bc) (next_bt bc bt) r)
+  end.
+
+(* the cards of a file read with block type bt, each with the block type it gets *)
+Definition sfile_tcards (bt : nat) (sf : sfile) : list (nat * card) :=
+  List.app (map (pair bt) (s_first sf)) (more_tcards 0 bt (s_more sf)).
+
+Definition cook_t (w : nat) (tc : nat * card) : nat * list string := (fst tc, cooked w (snd tc)).
+
+Definition card_rc (w : nat) (c : card) : rc := classify_lines (cooked w c).
+
+Definition nonread (w : nat) (tcs : list (nat * card)) : list (nat * card) :=
+  filter (fun tc => negb (is_name (card_rc w (snd tc)))) tcs.
+
+Definition reads_of (w : nat) (path : string) (tcs : list (nat * card)) : list qitem :=
+  flat_map (fun tc => match card_rc w (snd tc) with RcName n => [(fst tc, n, path)] | _ => [] end) tcs.
+
+Definition all_cards (sf : sfile) : list card := List.app (s_first sf) (flat_map snd (s_more sf)).
+
+Definition sfile_ok (w : nat) (sf : sfile) : bool :=
+  andb (block_ok w (s_first sf))
+ (andb (forallb (fun sb => andb (blank_line (fst sb)) (block_ok w (snd sb))) (s_more sf))
+       (forallb (fun c => negb (is_rcerr (card_rc w c))) (all_cards sf))).
+
+Definition is_nil {A : Type} (l : list A) : bool := match l with [] => true | _ => false end.
+
+(* the top-level file: at most three blocks hold cards *)
+Definition top_ok (w : nat) (sf : sfile) : bool :=
+  andb (sfile_ok w sf) (forallb (fun sb => is_nil (snd sb)) (skipn 2 (s_more sf))).
+
+(* a file named by a read card: the cards of one block (no comment lines in front of the first one),
+   then nothing but blank lines *)
+Definition sub_ok (w : nat) (sf : sfile) : bool :=
+  andb (forallb (card_ok w) (s_first sf))
+ (andb (forallb (fun sb => andb (blank_line (fst sb)) (is_nil (snd sb))) (s_more sf))
+       (forallb (fun c => negb (is_rcerr (card_rc w c))) (s_first sf))).
+
+Definition stree := list (string * sfile).
+
+Fixpoint slookup (t : stree) (p : string) : option sfile :=
+  match t with
+  | [] => None
+  | (k, v) :: r => if String.eqb k p then Some v else slookup r p
+  end.
+
+(* the files as the reader sees them: the top-level file's lines, and the renderings of the tree *)
+Definition tree_ft (top : string) (tl : list string) (t : stree) : opener :=
+  fun p => if String.eqb p top then Some tl else option_map render (slookup t p).
+
+Definition s_item_cards (t : stree) (dir : string) (it : qitem) : list (nat * card) :=
+  match slookup t (item_path dir it) with
+  | Some sf => sfile_tcards (fst (fst it)) sf
+  | None => []
+  end.
+
+Definition s_children (w : nat) (t : stree) (dir : string) (it : qitem) : list qitem :=
+  reads_of w (item_path dir it) (s_item_cards t dir it).
+
+Definition s_item_ok (w : nat) (t : stree) (dir : string) (it : qitem) : Prop :=
+  exists sf, slookup t (item_path dir it) = Some sf /\ sub_ok w sf = true.
+
+(* textual substitution: block b of the flattened file = the block's own cards without the read cards, then, for
+   every read card met in that block type (breadth first, in the order met), the target's cards without its read
+   cards *)
+Definition flat_block (w : nat) (t : stree) (dir : string) (own : list (nat * card)) (items : list qitem) (b : nat)
+  : list card :=
+  List.app (map snd (block_of b (nonread w own)))
+           (flat_map (fun it => map snd (block_of b (nonread w (s_item_cards t dir it)))) items).
+
+Definition nl_line : string := String nl "".
+
+Definition flatten (w : nat) (t : stree) (top : string) (tsf : sfile) (n : nat) : sfile :=
+  let dir := dirname top in
+  let own := sfile_tcards 0 tsf in
+  let items := bfsG (s_children w t dir) n (reads_of w top own) in
+  mkS (flat_block w t dir own items 0)
+      [(nl_line, flat_block w t dir own items 1); (nl_line, flat_block w t dir own items 2)].
 
 (* ------------------------------------------------------------------ wire
    readall <w> <fuel> <cwdhex> <tophex> <pathhex>=<byteshex>,...   ("-" = no file, "-" = empty bytes)
-   isread <hexline,hexline..>      name <hexline,...>      dirname <hex>     join <hex> <hex> *)
+   isread <hexline,hexline..>      name <hexline,...>      dirname <hex>     join <hex> <hex>
+   cardok <w> <hexline,...>  (answers card_ok / lcard_ok)
+   flatten <w> <n> <tophex> <file> <pathhex>=<file>;...     file = block/block/... , block = card+card.. ("-" empty),
+       card = hexline,hexline..; blocks are rendered behind a single line feed; answers the flattened file's
+       lines (hex, comma separated) *)
 Definition show_yield (y : yielded) : string :=
   match y with
   | YNone => "N"
@@ -275,31 +497,61 @@ Definition show_ra_err (e : option ra_err) : string :=
 Definition parse_fs (s : string) : fsys :=
   if String.eqb s "-" then []
   else flat_map (fun kv => match split_on "="%char kv with
-                           | [k; v] => [(hex_decode k, hex_decode v)]
+                           | [k; v] => [(hex_decode k, if String.eqb v "-" then "" else hex_decode v)]
                            | _ => []
                            end) (split_on ","%char s).
 
 Definition parse_lines (s : string) : list string :=
   if String.eqb s "-" then [] else map hex_decode (split_on ","%char s).
 
+Definition parse_block (s : string) : list card :=
+  if String.eqb s "-" then [] else map parse_lines (split_on "+"%char s).
+
+Definition parse_sfile (s : string) : sfile :=
+  match map parse_block (split_on "/"%char s) with
+  | [] => mkS [] []
+  | b :: r => mkS b (map (pair nl_line) r)
+  end.
+
+Definition parse_stree (s : string) : stree :=
+  if String.eqb s "-" then []
+  else flat_map (fun kv => match split_on "="%char kv with
+                           | [k; v] => [(hex_decode k, parse_sfile v)]
+                           | _ => []
+                           end) (split_on ";"%char s).
+
+Definition show_ra (r : ra_result) : string :=
+  (match ra_message r with None => "none" | Some m => "m" ++ show_list hex_encode m end) ++ " " ++
+  show_opt (ra_title r) ++ " " ++
+  (match ra_yields r with [] => "-" | ys => join ";" (map show_yield ys) end) ++ " " ++
+  show_ra_err (ra_error r).
+
 Definition run_ReadQ (req : string) : string :=
   match words req with
   | ["readall"; w; fuel; cwd; top; fs] =>
       match parse_nat w, parse_nat fuel with
-      | Some W, Some F =>
-          let r := read_all W (parse_fs fs) (hex_decode cwd) (hex_decode top) F in
-          (match ra_message r with None => "none" | Some m => "m" ++ show_list hex_encode m end) ++ " " ++
-          show_opt (ra_title r) ++ " " ++
-          (match ra_yields r with [] => "-" | ys => join ";" (map show_yield ys) end) ++ " " ++
-          show_ra_err (ra_error r)
+      | Some W, Some F => show_ra (read_all W (parse_fs fs) (hex_decode cwd) (hex_decode top) F)
       | _, _ => "parse:err"
       end
   | ["isread"; ls] => if is_read_input (parse_lines ls) then "1" else "0"
   | ["name"; ls] =>
-      match read_name (parse_lines ls) with
+      match classify_lines (parse_lines ls) with
       | RcName n => "n" ++ hex_encode n
       | RcErr => "err"
       | RcNot => "not"
+      end
+  | ["cardok"; w; ls] =>
+      match parse_nat w with
+      | Some W => (if card_ok W (parse_lines ls) then "1" else "0") ++ (if lcard_ok W (parse_lines ls) then "1" else "0")
+      | None => "parse:err"
+      end
+  | ["flatten"; w; n; top; tf; tree] =>
+      match parse_nat w, parse_nat n with
+      | Some W, Some N =>
+          let tsf := parse_sfile tf in
+          (if top_ok W tsf then "1" else "0") ++ " " ++
+          show_list hex_encode (render (flatten W (parse_stree tree) (hex_decode top) tsf N))
+      | _, _ => "parse:err"
       end
   | ["dirname"; p] => "d" ++ hex_encode (dirname (hex_decode p))
   | ["join"; a; b] => "j" ++ hex_encode (path_join (hex_decode a) (hex_decode b))
